@@ -152,24 +152,86 @@ def run_pty(tree, args, env):
     return p.returncode, out.replace(b"\r\n", b"\n"), err
 
 
+# (how it is given, format).  Every format ends where the description goes, so that "the output block follows the
+# command's own status line" reads the same for all of them.
+STATUS_FORMATS = [
+    (None, None), (None, None),
+    ("env", "[%s/%f/%t/%r/%u] "),
+    ("env", "%p %e "),
+    ("env", "100%% <%f of %t|%p|%u left|%r busy|%s> "),
+    ("flag", "[$started/$finished/$total/$running/$remaining] $description"),
+    ("flag", "${finished}of$total $$ ${progress} $description"),
+    ("flag-over-env", "<$remaining.$running.$started.$total.$finished> $description"),
+]
+_ENV_PH = {"s": rb"(\d+)", "f": rb"(\d+)", "t": rb"(\d+)", "r": rb"(\d+)", "u": rb"(-?\d+)", "p": rb"( *\d+%)", "e": rb"[0-9.]+"}
+_FLAG_PH = {"started": "s", "finished": "f", "total": "t", "running": "r", "remaining": "u", "progress": "p"}
+
+
+def status_regex(fmt, how):
+    """-> (regex bytes matching the formatted status up to where the description starts, [placeholder letters])"""
+    rx, names = b"", []
+    i = 0
+    if how == "env":
+        while i < len(fmt):
+            c = fmt[i]
+            if c == "%":
+                k = fmt[i + 1]
+                i += 2
+                if k == "%":
+                    rx += re.escape(b"%")
+                else:
+                    rx += _ENV_PH[k]
+                    if k in "sftrup":
+                        names.append(k)
+            else:
+                rx += re.escape(c.encode())
+                i += 1
+        return rx, names
+    while i < len(fmt):
+        c = fmt[i]
+        if c == "$":
+            if fmt[i + 1] == "$":
+                rx += re.escape(b"$")
+                i += 2
+                continue
+            mm = re.match(r"\$\{(\w+)\}|\$(\w+)", fmt[i:])
+            name = mm.group(1) or mm.group(2)
+            i += mm.end()
+            if name == "description":
+                break
+            k = _FLAG_PH[name]
+            rx += _ENV_PH[k]
+            names.append(k)
+        else:
+            rx += re.escape(c.encode())
+            i += 1
+    return rx, names
+
+
 def e2e_case(ctx, seed):
     rng = random.Random(seed)
     sc, expect = make_scenario(rng, seed)
     t = e2e.Tree(sc)
     try:
         mode = rng.choice(("pipe", "pipe", "pty"))
-        fmt = rng.choice((None, None, "[%s/%f/%t/%r/%u] ", "%p %e "))
+        how, fmt = rng.choice(STATUS_FORMATS)
         env = {"TERM": "xterm" if mode == "pty" else "dumb"}
-        if fmt:
-            env["NINJA_STATUS"] = fmt
         args = ["-j%d" % rng.choice((1, 2, 3, 8)), "-k", "0"]
+        if how == "env":
+            env["NINJA_STATUS"] = fmt
+        elif how == "flag":
+            args += ["--status", fmt]
+        elif how == "flag-over-env":
+            env["NINJA_STATUS"] = "IGNORED %u "
+            args += ["--status", fmt]
+        ctx.count("status_format_%s" % (how or "default"))
         if mode == "pipe":
             rc, so, se = t.run(args, env=env)
         else:
             rc, so, se = run_pty(t, args, env)
         ctx.evaluations += 1
-        rep = {"seed": seed, "mode": mode, "status_format": fmt}
-        what = "scenario %d (%s, NINJA_STATUS=%r, %s)" % (seed, mode, fmt, " ".join(args))
+        rep = {"seed": seed, "mode": mode, "status_format": fmt, "status_format_given_by": how}
+        what = "scenario %d (%s, status format %r by %s, %s)" % (seed, mode, fmt, how or "default", " ".join(args))
         if rc is None:
             ctx.inconclusive += 1
             return
@@ -230,7 +292,47 @@ def e2e_case(ctx, seed):
                               "%s: the block of %s is preceded by %r" % (what, o, before[-200:]), rep)
                 return
             ctx.nontrivial((seed, o))
-        # printed counters
+        # printed counters, whatever the format: every status line is matched against the format and the numbers in
+        # it must be consistent with each other (running = started - finished, remaining = total - started,
+        # percentage = 100 * finished / total rounded down) and monotonic
+        if fmt is not None and mode == "pipe":
+            rx, names = status_regex(fmt, how)
+            if "IGNORED".encode() in so:
+                ctx.violation("C20/status-flag-does-not-override-env", "%s: NINJA_STATUS text printed although --status was given" % what, rep)
+                return
+            last_f = -1
+            nlines = 0
+            for mm in re.finditer(rx + re.escape(t.vtool.encode()), so):
+                v = dict(zip(names, mm.groups()))
+                nlines += 1
+                ctx.count("formatted_status_lines_checked")
+                num = {k: int(x.strip().rstrip(b"%")) for k, x in v.items() if k in "sftrup"}
+                bad = None
+                # (the line printed when a command finishes still counts that command as running: upstream order of
+                # PrintStatus and --running_edges_ in BuildEdgeFinished; a console command's line is printed at its start)
+                if "s" in num and "f" in num and "r" in num and num["r"] not in (num["s"] - num["f"], num["s"] - num["f"] + 1):
+                    bad = "running != started - finished (+1)"
+                elif "t" in num and "s" in num and "u" in num and num["u"] != num["t"] - num["s"]:
+                    bad = "remaining != total - started"
+                elif "f" in num and "t" in num and num["f"] > num["t"]:
+                    bad = "finished > total"
+                elif "s" in num and "t" in num and num["s"] > num["t"]:
+                    bad = "started > total"
+                elif "s" in num and "f" in num and num["f"] > num["s"]:
+                    bad = "finished > started"
+                elif "p" in num and "f" in num and "t" in num and num["t"] and num["p"] != (100 * num["f"]) // num["t"]:
+                    bad = "percentage != 100*finished/total"
+                elif "f" in num and num["f"] < last_f:
+                    bad = "finished went backwards"
+                if bad:
+                    ctx.violation("C20/formatted-status-inconsistent/%s" % re.sub(r"[^a-z]+", "-", bad).strip("-"),
+                                  "%s: status line %r: %s" % (what, mm.group(0)[:80], bad), rep)
+                    return
+                last_f = num.get("f", last_f)
+            nfin = len([e for e in ev if e["e"] == "S"])
+            if nfin and not nlines:
+                ctx.violation("C20/formatted-status-line-missing", "%s: %d commands ran but no status line matches the format" % (what, nfin), rep)
+                return
         if fmt is None and mode == "pipe":
             pairs = [(int(a), int(b)) for a, b in re.findall(rb"\[(\d+)/(\d+)\] " + re.escape(t.vtool.encode()), so)]
             ctx.count("status_lines_seen", len(pairs))
@@ -331,7 +433,7 @@ def run(ctx):
     seeds = [rng.randint(1, 10 ** 9) for _ in range(250 if quick else 6000)]
     from .c07 import safe
     e2e.parallel(lambda s: safe(ctx, e2e_case, ctx, s), seeds)
-    ctx.rule = ("%d e2e scenarios of 2..7 commands with 0..5 tagged stdout/stderr chunks each (pipe or pty, default/NINJA_STATUS formats, "
+    ctx.rule = ("%d e2e scenarios of 2..7 commands with 0..5 tagged stdout/stderr chunks each (pipe or pty; default, NINJA_STATUS and --status formats with every printed counter parsed back; "
                 "-j 1..8, failures, restat, console pool) + %d nsim builds with the status tap; distinct_nontrivial = distinct (scenario, "
                 "command) output blocks located and verified + builds whose total changed mid-build" % (len(seeds), 1500 if quick else 30000))
 
